@@ -863,3 +863,33 @@ mutant('F11-revert-recv-reset-ignores-scheduled-reset', ['C05', 'C19', 'C01', 'C
 mutant('C14-R6-ping-ack-polarity', ['C14'], ['C14.R6|load|ack-table'],
        'Ping::load takes every PING without ACK for an acknowledgement and vice versa',
        [('src/frame/ping.rs', 'let ack = head.flag() & ACK_FLAG != 0;', 'let ack = head.flag() & ACK_FLAG == 0;')])
+
+# ---------------------------------------------------------------- late additions (fifth wave, campaign regressions)
+mutant('C11-R6-oversized-insert-keeps-table', ['C11'], ['C11.R6|table|evict-until-fits|reserve'],
+       'decoder Table::reserve returns early for an entry that can never fit: the table is no longer emptied (RFC 7541 section 4.4)',
+       [('src/hpack/decoder.rs', '''    fn reserve(&mut self, size: usize) {
+        while self.size + size > self.max_size {''', '''    fn reserve(&mut self, size: usize) {
+        if size > self.max_size {
+            return;
+        }
+        while self.size + size > self.max_size {''')])
+
+mutant('C11-R4-prefix-equal-mask-is-complete', ['C11'], ['C11.R4|int|prefix-below-mask'],
+       'decode_int takes a prefix equal to the all-ones mask for a complete value',
+       [('src/hpack/decoder.rs', 'if ret < mask as usize {', 'if ret <= mask as usize {')])
+
+mutant('RG-flip-content-length-limit', ['C13'], ['C13.RG|guard|frame::headers::parse_u64|err'],
+       'parse_u64 rejects short digit strings and accepts the over-long ones: an inverted test whose two exits could be explained as "merged"',
+       [('src/frame/headers.rs', 'if src.len() > 19 {', 'if !(src.len() > 19) {')])
+
+mutant('RG-flip-empty-data-budget', ['C18'], ['C18.RG|guard|counts::Counts::record_data_frame|err'],
+       'the empty-DATA budget refuses frames while it is NOT exhausted: an inverted test next to an ok_or combinator',
+       [(S + 'counts.rs', 'if self.num_recv_empty_data_frames > MAX_RECV_EMPTY_DATA_FRAMES {', 'if !(self.num_recv_empty_data_frames > MAX_RECV_EMPTY_DATA_FRAMES) {')])
+
+mutant('RG-one-of-four-breaks-inverted', ['C11'], ['C11.RG|guard|hpack::decoder::Decoder::decode|'],
+       'one of the four `if f(entry).is_break() { break }` arms of Decoder::decode is turned around',
+       [('src/hpack/decoder.rs', '''                    let entry = self.decode_indexed(src)?;
+                    consume(src);
+                    if f(entry).is_break() {''', '''                    let entry = self.decode_indexed(src)?;
+                    consume(src);
+                    if !f(entry).is_break() {''')])
